@@ -98,7 +98,9 @@ def concept_case(out: Outcome, rng, cls: str, lines, expect) -> None:
                 f"{cls}: attaching the history callback changes the detector's output at update {t + 1}", {**rep, "step": t + 1})
             return
         h = cb.history
-        if logs["h"] is not cb.logs or any(logs["h"][k] is not h[k] for k in h):
+        # the logs handed out ARE the history (the same list objects, so that they go on filling); whether the dictionary around them is the callback's own or a
+        # copy of it is not something the property fixes
+        if set(logs["h"]) != set(cb.logs) or any(logs["h"][k] is not h[k] for k in h):
             out.violation(f"{cls}: the logs returned by update are not the callback's history", {**rep, "step": t + 1})
             return
         for k, v in h.items():
